@@ -230,6 +230,7 @@ def apply_model(spec, mods):
             raise ValueError("no slot for %r" % (m,))
 
     # ---- deletions, in address order
+    input_empty = {b["n"] for s_ in spec["sections"] for b in s_["blocks"] if not b["i"]}
     proxied = set()
     wholly_deleted = set()
     dels = [(order[m["b"]], m["k"], mid, m) for mid, m in enumerate(mods) if m["op"] in ("rep", "del")]  # scope ops never delete
@@ -272,8 +273,8 @@ def apply_model(spec, mods):
                 take = []
                 while p >= 0 and not (toks[p]["t"] == "ins" and not toks[p].get("dead")):
                     t = toks[p]
-                    if t["t"] == "lab" and (t["own"] == m["b"] or _emptied(toks, t["own"])):
-                        take.append(p)
+                    if t["t"] == "lab" and (t["own"] == m["b"] or (_emptied(toks, t["own"]) and t["own"] not in input_empty)):
+                        take.append(p)  # (a block that was zero-sized before this rewrite keeps its labels: nothing slid in this apply)
                     p -= 1
                 for p2, t in enumerate(toks):
                     if t["t"] == "lab" and t["own"] == m["b"] and t["end"]:
@@ -340,6 +341,7 @@ class Listing:
         self.cfi = {}  # (sec,pos) -> [directive tuples]
         self.problems = []
         self.align = {}  # (sec,pos) -> alignment
+        self.optional_edges = set()  # edges the listing leaves open (may be present or absent)
         self.func_entries = {}  # function -> {(sec,pos)} entry block positions
         self.func_names = set()
 
@@ -349,6 +351,10 @@ def flatten(spec, secs, proxied):
     isa_ = isamod.TARGETS[spec["target"]][0]
     L = Listing()
     ext = set(spec.get("ext", ()))
+    # code blocks that are already zero-sized in the input (left by an earlier rewrite) stay what they are: a position that
+    # belongs to a function without being an instruction
+    empty_code = {b["n"]: b.get("f") for s in spec["sections"] for b in s["blocks"] if b["k"] == "c" and not b["i"]}
+    zero_code = {}
     for sname, toks in secs.items():
         pos = 0
         data = b""
@@ -357,6 +363,8 @@ def flatten(spec, secs, proxied):
         for ti, t in enumerate(toks):
             if t.get("dead") or t.get("proxied"):
                 continue
+            if t["t"] == "blk" and t.get("b") in empty_code:
+                zero_code[(sname, pos)] = empty_code[t["b"]]
             if t["t"] == "ins":
                 t["_key"] = (sname, pos)
                 prev_kind = t["bk"]
@@ -454,6 +462,7 @@ def flatten(spec, secs, proxied):
 
     func_at = {k: (v["f"], v["bk"]) for k, v in L.insns.items()}
     calls_to = collections.defaultdict(set)  # function -> return sites
+    maybe_calls_to = collections.defaultdict(set)
     for sname, keys in bysec.items():
         for i, key in enumerate(keys):
             rec = L.insns[key]
@@ -475,8 +484,15 @@ def flatten(spec, secs, proxied):
             elif k == "call":
                 tg = tgt(ins[1])
                 L.edges.add((key, "Call", False, True, tg))
-                if isinstance(tg, tuple) and tg in func_at and func_at[tg][1] == "c" and func_at[tg][0] and nxt_code:
+                if isinstance(tg, tuple) and tg in zero_code and tg in func_at and func_at[tg][1] == "c":
+                    # a zero-sized block of one function sits exactly where code of (possibly) another one starts: the
+                    # listing cannot tell which of the two is called, so the returns of that code may or may not come back here
+                    if func_at[tg][0] and nxt_code:
+                        maybe_calls_to[func_at[tg][0]].add(nxt)
+                elif isinstance(tg, tuple) and tg in func_at and func_at[tg][1] == "c" and func_at[tg][0] and nxt_code:
                     calls_to[func_at[tg][0]].add(nxt)
+                elif isinstance(tg, tuple) and (tg not in func_at or func_at[tg][1] != "c") and zero_code.get(tg) and nxt_code:
+                    calls_to[zero_code[tg]].add(nxt)  # the callee is a zero-sized block of that function with data / nothing behind it
             elif k == "ijmp":
                 L.edges.add((key, "Branch", False, False, "proxy"))
             elif k == "icall":
@@ -492,6 +508,9 @@ def flatten(spec, secs, proxied):
                     L.edges.add((key, "Return", False, True, s_))
             else:
                 L.edges.add((key, "Return", False, True, "proxy"))
+            for s_ in (maybe_calls_to.get(rec["f"], ()) if rec["f"] else ()):
+                L.optional_edges.add((key, "Return", False, True, s_))
+                L.optional_edges.add((key, "Return", False, True, "proxy"))
     return L
 
 
